@@ -69,6 +69,7 @@ fn start_watchdog(prop: String, seed: u64, replay_dir: PathBuf) {
                         fault_trace: vec!["(hang: not minimised, the run never ends)".into()],
                         events: vec![],
                         gherkin: vec![],
+                        after_earlier_run: false,
                     };
                     let _ = fs::create_dir_all(&replay_dir);
                     let path = replay_dir.join(format!("C04-{}-{}-{}-hang.json", check::build_name(), seed, idx));
@@ -286,11 +287,25 @@ fn replay(args: &[String]) -> Result<u8, String> {
         *g = Some(path.clone());
     }
     start_watchdog(rf.property.clone(), rf.seed, PathBuf::from("/verif/replays"));
+    let forced_warmup = args.iter().any(|a| a == "--after-earlier-run");
+    if rf.after_earlier_run || forced_warmup {
+        // the violation needs an earlier run in this process: a fixed warm-up run comes first
+        let w = Rc::new(check::warmup_plan());
+        mark_run(&w, 0, 0);
+        drop(exec(&rf.property, &w)?);
+        unmark_run();
+    }
     mark_run(&plan, rf.run_index, rf.run_seed);
     let e = exec(&rf.property, &plan)?;
     unmark_run();
     let same = e.violations.iter().find(|v| v.class() == rf.class);
     let digest = e.digest();
+    if same.is_some() && forced_warmup && !rf.after_earlier_run {
+        let mut upd = rf.clone();
+        upd.after_earlier_run = true;
+        upd.digest = digest;
+        fs::write(path, serde_json::to_string_pretty(&upd).map_err(|e| e.to_string())?).map_err(|e| e.to_string())?;
+    }
     println!(
         "{}",
         serde_json::json!({"type":"replay","property":rf.property,"class":rf.class,"reproduced":same.is_some(),"digest_matches":digest==rf.digest,
